@@ -236,7 +236,9 @@ def run(repo: Repo, tier: str) -> Report:
                f"args = {args}, kwargs = {list(s.kwargs)}", s.call)
         if s.mode == "map_blocks":
             o = {k_: ast.unparse(v) for k_, v in s.opts.items()}
-            okc = o.get("drop_axis") == "[1, 2]" and o.get("new_axis") == "[1, 2]" and o.get("chunks") == "chunks"
+            from ..rules import resolve_local
+            ch = ast.unparse(resolve_local(s.fn, s.opts["chunks"])) if "chunks" in s.opts else None
+            okc = o.get("drop_axis") == "[1, 2]" and o.get("new_axis") == "[1, 2]" and ch == "[xx.data.chunks[0], (len(zone_ids),), (2,)]"
             rep.ob("R-BIND", AFILE, s.where(), "dask path drops y/x and creates (zones, stat) axes", okc, f"options = {o}", "map_blocks options")
     m = repo.method("hdc.algo.accessors", "ZonalStatistics", "mean")
     from ..rules import r_token
@@ -249,14 +251,12 @@ def run(repo: Repo, tier: str) -> Report:
     gap = reaches_unconditionally(m, sub, [s_.call for s_ in sites]) if sub is not None else "statement not found"
     rep.ob("R-FORMULA", AFILE, "ZonalStatistics.mean", "NaN pixels are replaced by nodata before the kernel, for every input (the kernel only tests != nodata)",
            gap is None, f"the substitution {gap}: NaN pixels of the inputs that skip it are summed and counted" if gap else "", sub if sub is not None else "xx = xx.where(xx.notnull(), xx.nodata)")
-    for txt_ in ("num_zones = len(zone_ids)", "chunks = [xx.data.chunks[0], (num_zones,), (2,)]"):
+    for txt_ in ("num_zones = len(zone_ids)",):
         st_ = src.get(txt_)
         if st_ is not None:
             users = [s_.call for s_ in sites if any(isinstance(x, ast.Name) and x.id == txt_.split(" =")[0] for x in ast.walk(s_.call))]
             gap_ = reaches_unconditionally(m, st_, users)
             rep.ob("R-FORMULA", AFILE, "ZonalStatistics.mean", f"`{txt_.split(' =')[0]}` is defined on every path to the sites that use it", gap_ is None, f"`{txt_}` {gap_}" if gap_ else "", st_)
-    rep.ob("R-FORMULA", AFILE, "ZonalStatistics.mean", "dask chunks = (time chunks, (num_zones,), (2,)) agree with the kernel's (t, num_zones, 2)",
-           "chunks = [xx.data.chunks[0], (num_zones,), (2,)]" in src, "", "chunks = [xx.data.chunks[0], (num_zones,), (2,)]")
     rep.ob("R-FORMULA", AFILE, "ZonalStatistics.mean", "num_zones = len(zone_ids)", "num_zones = len(zone_ids)" in src, "", "num_zones = len(zone_ids)")
     rep.ob("R-FORMULA", AFILE, "ZonalStatistics.mean", "dims are (time, zones, stat) with stat = [mean, valid]",
            "dims = (xx.dims[0], dim_name, 'stat')" in src and any("'stat': ['mean', 'valid']" in k_ for k_ in src), "", "dims/coords")
